@@ -145,7 +145,11 @@ def judge_c02(ws, cost, w, edits, acc, order):
     case = {"class": ws.path, "wire": w, "mode": "value"}
     lay = refcodec.encode(ws, w, bridge.wire_default)
     ref = bytes(lay.buf)
-    inst = bridge.to_entity(ws, w)
+    bridge.PRESENT_FOLD = True  # the two fold-twin instants are handed to the encoder as Europe/Berlin datetimes
+    try:
+        inst = bridge.to_entity(ws, w)
+    finally:
+        bridge.PRESENT_FOLD = False
     acc.add("evaluations")
     try:
         enc = kio_encode(cls, inst)
